@@ -29,7 +29,7 @@ func (pid PeerID) Base64String() string {
 	return string(data)
 }
 
-var enc = base64.NewEncoding(Base64Alphabet).WithPadding(base64.NoPadding)
+var enc = base64.NewEncoding(Base64Alphabet).WithPadding(base64.NoPadding).Strict()
 
 func (pid PeerID) MarshalText() ([]byte, error) {
 	data := make([]byte, enc.EncodedLen(len(pid)))
@@ -41,7 +41,15 @@ func (pid *PeerID) UnmarshalText(data []byte) error {
 	if len(data) != enc.EncodedLen(len(pid)) {
 		return errors.New("data is wrong length")
 	}
-	enc.Decode(pid[:], data)
+	var x PeerID
+	n, err := enc.Decode(x[:], data)
+	if err != nil {
+		return err
+	}
+	if n != len(x) {
+		return errors.New("data is wrong length")
+	}
+	*pid = x
 	return nil
 }
 
